@@ -94,7 +94,7 @@ class QueryHandler:
     @staticmethod
     def _tokenize(expression_string):
         """Tokenize the expression string into a list"""
-        grouping_re = r"\[\[|\[|\]\]|\]|}|{|:"
+        grouping_re = r"\[|\]|}|{|:"
         paren_re = r"\)|\(|~"
         word_re = r"\?+|\&\&|\|\||,|[\"_\-a-zA-Z0-9/.^#\*@]+"
         re_string = fr"({grouping_re}|{paren_re}|{word_re})"
